@@ -99,6 +99,11 @@ pub struct ProbeState {
     pub commits: usize,
     pub pool: Vec<Uuid>,
     pub observe: bool,
+    /// every committed state, in order (only when `keep_history`)
+    pub keep_history: bool,
+    pub history: Vec<Dump>,
+    /// sleep this long inside every storage call (used by the kill tests to widen windows)
+    pub delay_us: u64,
 }
 
 #[derive(Clone)]
@@ -158,10 +163,28 @@ impl Probe {
         self.st.lock().unwrap().last_commit = Some(d);
     }
 
+    pub fn keep_history(&self, on: bool) {
+        let mut st = self.st.lock().unwrap();
+        st.keep_history = on;
+        st.history.clear();
+    }
+    pub fn history(&self) -> Vec<Dump> {
+        self.st.lock().unwrap().history.clone()
+    }
+    pub fn set_delay_us(&self, us: u64) {
+        self.st.lock().unwrap().delay_us = us;
+    }
+
     /// Called at the start of every storage call.
     async fn enter(&self, name: &'static str) -> Result<()> {
         let action = {
             let mut st = self.st.lock().unwrap();
+            if st.delay_us > 0 {
+                let d = st.delay_us;
+                drop(st);
+                std::thread::sleep(std::time::Duration::from_micros(d));
+                st = self.st.lock().unwrap();
+            }
             let idx = st.calls;
             st.calls += 1;
             if st.record_names {
@@ -275,6 +298,9 @@ impl ObsTxn<'_> {
         let mut st = self.probe.st.lock().unwrap();
         st.commits += 1;
         if let Some(d) = dump {
+            if st.keep_history {
+                st.history.push(d.clone());
+            }
             st.last_commit = Some(d);
         }
         Ok(())
